@@ -41,6 +41,28 @@ RULE = ("one case = one generated program run once (plus a replay on the same ba
         "compared with the model rows and with the specification (task calls reachable through non-task expressions). "
         "distinct = distinct programs; a program without any task-valued argument is trivial")
 
+LEVEL_TEXT = (
+    "Proved in Lean 4 on the bookkeeping model (Model/Upstreams.lean), universally quantified over all expressions and all "
+    "consistent _pending_expr tables. Full strength (model mirrors the code after the three repairs committed in /repo): "
+    "findUps_reach (_find_arg_upstreams = reachability through containers and _upstreams of non-task expressions), upstreams (the "
+    "recorded upstream set of every expression = the task calls that produced its value: through lazy operators, containers, "
+    "cond (condition + branch taken), catch (recovery call when caught), apply_tags; with duplicates of every kind, defaults, "
+    "prov=False calls; the table stays consistent so the statement composes over a scope), rows_upstreams (every Argument row "
+    "belongs to an evaluated call's parameter and links exactly its producers), defaults_as_kwargs (a call that runs records every "
+    "parameter: positional, keyword, and defaulted ones as keyword arguments with the producers of the default expression), "
+    "unevaluated_no_upstream. About the code before the repairs (legacy = true): legacy_refuted_duplicate_scheduler_expr and "
+    "legacy_refuted_default_expr (closed counter-examples, by decide) and legacy_partial (agreement on scheduler-task-free "
+    "expressions). Tie: generated programs are run for real; all Argument/ArgumentResult rows are compared with the model rows and "
+    "independently with the specification; received values are re-hashed against Argument.value_hash.")
+LEVEL_NOTE = (
+    "The model covers one evaluation scope with leaf tasks returning plain values; which cond branch is taken and whether a caught "
+    "expression fails are inputs (reference evaluation, confirmed against the real result); catch's own result cache is not in the "
+    "model (after commit eae2824 a cache-served catch leaves the same bookkeeping as an evaluated one; exercised by warm-up "
+    "executions). Not modelled: nested scopes' interaction beyond first-writer-wins of record_call_node, expressions returned by "
+    "lazy operators, fork_thread/join_thread, subrun, pickled (remote) expressions whose bookkeeping is reset. Three defects found "
+    "and fixed through this check: expression-valued defaults (F21), duplicated scheduler expressions, cache-served catch.")
+TECHNIQUE = "Lean 4 proof on a hand-written bookkeeping model + differential audit of Argument/ArgumentResult rows of real runs"
+
 KW = {"ka": 0, "kb": 1, "x": 2, "y": 3, "z": 4}
 
 
